@@ -117,10 +117,13 @@ func runC08(h kit.History) kit.Result {
 	multiOp, rollbackAfterWork, otherRoute := false, false, false
 	for i, tx := range h.Txs {
 		want, commits, ignoreKid := expectedEvents(m, tx, extended)
-		var commitActions atomic.Int32
+		var commitActions, earlyActions atomic.Int32
 		rec.Committed.Store(false)
 		rec.Drain()
-		out := kit.RunTxWith(w, m, tx, func(ctx boltz.MutateContext) {
+		out := kit.RunTxHooks(w, m, tx, func(ctx boltz.MutateContext) {
+			// a commit action registered on the context before the transaction is opened
+			ctx.AddCommitAction(func() { earlyActions.Add(1) })
+		}, func(ctx boltz.MutateContext) {
 			rec.Committed.Store(false)
 			ctx.Tx().OnCommit(func() { rec.Committed.Store(true) })
 			ctx.AddCommitAction(func() { commitActions.Add(1) })
@@ -141,7 +144,7 @@ func runC08(h kit.History) kit.Result {
 		// commit actions run on their own goroutine: wait for the latch (10 s ceiling)
 		if out.Committed {
 			latch := time.Now().Add(10 * time.Second)
-			for commitActions.Load() == 0 && time.Now().Before(latch) {
+			for (commitActions.Load() == 0 || earlyActions.Load() == 0) && time.Now().Before(latch) {
 				time.Sleep(50 * time.Microsecond)
 			}
 		}
@@ -217,8 +220,17 @@ func runC08(h kit.History) kit.Result {
 		if out.Committed {
 			wantActions = 1
 		}
-		if n := commitActions.Load(); n != wantActions {
+		if n := commitActions.Load(); n != wantActions && !tx.Batch {
 			res.Err = fmt.Errorf("%s: commit action ran %d times, want %d\nhistory:\n%s", label, n, wantActions, h)
+			return res
+		}
+		if n := commitActions.Load(); tx.Batch && (out.Committed && n < 1 || !out.Committed && n != 0) {
+			// Db.Batch may invoke the function twice, registering the in-transaction action twice
+			res.Err = fmt.Errorf("%s: commit action ran %d times for a Db.Batch transaction (committed=%v)\nhistory:\n%s", label, n, out.Committed, h)
+			return res
+		}
+		if n := earlyActions.Load(); n != wantActions {
+			res.Err = fmt.Errorf("%s: the commit action registered before the transaction was opened ran %d times, want %d\nhistory:\n%s", label, n, wantActions, h)
 			return res
 		}
 		// tx-complete: one for the barrier transaction, plus exactly one for a committed Db.Update (at most one for Db.Batch)
